@@ -823,3 +823,57 @@ def swaps_bounds(lists, radix):
             nxt.append(merged)
         cur = nxt
     return lo, hi
+
+
+# ------------------------------------------------------------------------------------ complete enumeration (C15)
+ENUM_CASES = [
+    {"family": "matmul", "shapes": {"k": 2, "m": 2, "n": 2},
+     "vals": {"A": [[[0, 0], 1], [[0, 1], 2], [[1, 1], 3]], "B": [[[0, 0], 1], [[1, 0], 2], [[1, 1], -1]]}, "route": "ref"},
+    {"family": "matvec", "shapes": {"k": 3, "m": 2},
+     "vals": {"A": [[[0, 0], 2], [[0, 2], 1], [[1, 1], 3], [[1, 2], -2]], "B": [[[0], 1], [[2], 2]]}, "route": "ref"},
+    {"family": "rowsum", "shapes": {"k": 3, "m": 2},
+     "vals": {"A": [[[0, 1], 2], [[1, 0], 1], [[1, 2], 3]]}, "route": "ref"},
+]
+
+
+def c15_enumeration(tier, world_cls, workers, root):
+    """for fixed small kernels: EVERY body-abort step and EVERY failing file event of one earlier session
+    (ended normally / abandoned), followed by the target session; returns (plans, description)"""
+    from . import core as C
+    cases = ENUM_CASES if tier == "thorough" else ENUM_CASES[:1]
+    plans = []
+    for ci, case in enumerate(cases):
+        out, ops = K.case_spec(case)
+        order = sorted(case["shapes"])
+        flow = {"order": order, "style": "and", "tile": None}
+        reg = [x + [False] for x in all_reg(order, nlabels=4)]
+        target = {"role": "target", "flow": flow, "prefix": "tgt", "reg": reg, "ncu": 3, "end": "normal"}
+        # measure the clean session: number of bodies and of file events
+        probe_plan = {"property": "C15", "world": "KernelSim", "verif_seed": 0, "run_index": -1, "run_seed": "enum-probe",
+                      "swarm": {"mode": "C15", "max_events": 10},
+                      "events": [["case", case], ["session", dict(target, role="first")]]}
+        res = C.replay_plan(world_cls, probe_plan, root, tag=f"enumprobe{ci}")
+        sess = res["log"][1][1]
+        nfile = sess["file_events"]
+        nbody = sum(sess["counts"]) and None
+        tensors_bodies = 0
+        # count bodies with the interpreter (collection off)
+        cnt = K.Counts()
+        K.run_kernel(case, K.build_tensors(case), flow, cnt)
+        nbody = cnt.steps
+        hist = []
+        for k in range(1, nbody + 1):
+            hist.append({"abort_at": k, "end": "normal"})
+            hist.append({"abort_at": k, "end": "abandon"})
+        for n in range(1, nfile + 1):
+            hist.append({"fail_at": n, "fail_kind": "enospc", "end": "normal"})
+            if tier == "thorough":
+                hist.append({"fail_at": n, "fail_kind": "eio", "end": "abandon"})
+        for h in hist:
+            hs = dict(target, role="history", ncu=2, **h)
+            plans.append({"property": "C15", "world": "KernelSim", "verif_seed": 0, "run_index": -1,
+                          "run_seed": f"enum-{ci}", "swarm": {"mode": "C15", "max_events": 10},
+                          "events": [["case", case], ["session", dict(target, role="first")],
+                                     ["session", dict(target, role="off")], ["session", hs],
+                                     ["session", dict(target, role="target")]]})
+    return plans
